@@ -118,13 +118,23 @@ fn fast_matcher<S: Shape>(pat: usize, mode: u8, at_end: bool) -> Option<LtMatche
 /// index k of the sink call that refuses (stop) or fails (error) -- k beyond
 /// the stream means an uninterrupted run, which must equal the grep model
 /// (C03/C01); k inside it must yield the prefix (C16).
-fn fast_enum<S: Shape>(mode: u8, invs: &[bool], stops: &[bool], at_ends: &[bool], abs: &[(usize, usize)]) {
+/// `ks`: None = uninterrupted runs only (== grep model);  Some(fail) = in
+/// addition every sink-call index k at which the sink refuses (fail=false) or
+/// fails (fail=true) is enumerated and the prefix property checked.  (A
+/// SYMBOLIC k does not terminate on this path: the fast loop's result enum
+/// becomes a symbolic tag and symex then also explores the switch-to-slow arm
+/// from a symbolic position -- measured: out of memory after 9 minutes for a
+/// single 2-line pattern.)
+fn fast_enum<S: Shape>(
+    mode: u8,
+    invs: &[bool],
+    stops: &[bool],
+    at_ends: &[bool],
+    abs: &[(usize, usize)],
+    ks: Option<bool>,
+) {
     let mut cfg = Cfg { a: 0, b: 0, invert: false, passthru: false, lnum: kani::any(), stop_nm: false };
     let mut searcher = build_searcher::<S>(&cfg, false);
-    let k: usize = kani::any();
-    kani::assume(k <= evcap::<S>());
-    let fail: bool = kani::any();
-    let mut interrupted_mid = false;
     let mut delivered_all = false;
     for &inv in invs {
         for &stop in stops {
@@ -142,21 +152,28 @@ fn fast_enum<S: Shape>(mode: u8, invs: &[bool], stops: &[bool], at_ends: &[bool]
                     let mut pat = 0;
                     while pat < (1usize << S::NL) {
                         if let Some(matcher) = fast_matcher::<S>(pat, mode, at_end) {
-                            let (full, _) = model_events::<S>(&matcher.plain.hit, &cfg);
+                            let (full, count_known) = model_events::<S>(&matcher.plain.hit, &cfg);
                             let mut sink = RecSink::new(S::HAY);
-                            sink.ctl = true;
-                            if fail {
-                                sink.fail_at = k;
-                            } else {
-                                sink.stop_at = k;
-                            }
                             let r = SliceByLine::new(&searcher, &matcher, S::HAY, &mut sink).run();
-                            check_interrupted::<S>(&sink, &full, r.is_err(), k, fail);
-                            if k + 2 < full.n {
-                                interrupted_mid = true;
-                            }
-                            if k >= full.n && sink.n >= S::NL + 2 {
+                            assert!(r.is_ok(), "search returns Ok");
+                            assert_log_is_model(&sink, &full, count_known, evcap::<S>());
+                            if sink.n >= S::NL + 2 {
                                 delivered_all = true;
+                            }
+                            if let Some(fail) = ks {
+                                let mut k = 0;
+                                while k + 1 < full.n {
+                                    let mut sink = RecSink::new(S::HAY);
+                                    sink.ctl = true;
+                                    if fail {
+                                        sink.fail_at = k;
+                                    } else {
+                                        sink.stop_at = k;
+                                    }
+                                    let r = SliceByLine::new(&searcher, &matcher, S::HAY, &mut sink).run();
+                                    check_interrupted::<S>(&sink, &full, r.is_err(), k, fail);
+                                    k += 1;
+                                }
                             }
                         }
                         pat += 1;
@@ -165,28 +182,31 @@ fn fast_enum<S: Shape>(mode: u8, invs: &[bool], stops: &[bool], at_ends: &[bool]
             }
         }
     }
-    kani::cover!(interrupted_mid || delivered_all, "reach-end");
+    kani::cover!(delivered_all, "reach-end");
     std::mem::forget(searcher);
 }
 
 /// Confirmed offsets (reported at the start of the content), with and without
-/// inversion, contexts (0,0) and (1,1)
-pub(crate) fn c16_fast_confirmed<S: Shape>() {
-    fast_enum::<S>(0, &[false, true], &[false], &[false], &[(0, 0), (1, 1)])
+/// inversion, contexts (0,0), (1,1), (2,0), (0,2)
+pub(crate) fn c03_fast_confirmed<S: Shape>() {
+    fast_enum::<S>(0, &[false, true], &[false], &[false], &[(0, 0), (1, 1), (2, 0), (0, 2)], None)
 }
-/// every line is a Candidate (offset reported at the end of the content),
-/// with and without inversion, contexts (1,1)
-pub(crate) fn c16_fast_candidate_all<S: Shape>() {
-    fast_enum::<S>(2, &[false, true], &[false], &[true], &[(1, 1)])
+/// every line is a Candidate (offset reported at the end of the content)
+pub(crate) fn c03_fast_candidate_all<S: Shape>() {
+    fast_enum::<S>(2, &[false, true], &[false], &[true], &[(0, 0), (1, 1), (2, 1)], None)
 }
 /// stop-on-nonmatch on: the fast loop hands over to the slow loop after the
-/// first match; Candidate offsets, contexts (0,0) and (1,1)
-pub(crate) fn c16_fast_stop<S: Shape>() {
-    fast_enum::<S>(1, &[false], &[true], &[false], &[(0, 0), (1, 1)])
+/// first match; Candidate offsets (candidates == hits)
+pub(crate) fn c03_fast_stop<S: Shape>() {
+    fast_enum::<S>(1, &[false, true], &[true], &[false, true], &[(0, 0), (1, 1)], None)
 }
-/// asymmetric contexts (thorough tier)
-pub(crate) fn c16_fast_asym<S: Shape>() {
-    fast_enum::<S>(0, &[false, true], &[false], &[false], &[(2, 0), (0, 2)])
+/// C16 on the fast path: sink refuses at every call index
+pub(crate) fn c16_fast_refuse<S: Shape>() {
+    fast_enum::<S>(0, &[false, true], &[false], &[false], &[(1, 1)], Some(false))
+}
+/// C16 on the fast path: sink fails at every call index
+pub(crate) fn c16_fast_error<S: Shape>() {
+    fast_enum::<S>(2, &[false, true], &[false], &[true], &[(1, 1)], Some(true))
 }
 
 /// find_by_line_fast alone, from an arbitrary line-start position, with fully
